@@ -171,7 +171,7 @@ def oracle(c, st):
         if abs(R.ap[0] - L.ap[0]) > TOL * max(L.ap[0], 1e-6) + area_rounding(L.v, R.v): return ('C20:roundtrip-area', 'area %r read back as %r' % (L.ap[0], R.ap[0]))
         if max(abs(x - y) for x, y in zip(R.n, L.n)) > TOL: return ('C20:roundtrip-normal', 'normal %r read back as %r' % (L.n, R.n))
         P = c['poly']; PL = LoopJ(P['outer'], st)
-        if P['ninner'] != 0 or not same_vertices(PL.v, L.v) or abs(fls([P['area']], st)[0] - L.ap[0]) > TOL * max(L.ap[0], 1e-6):
+        if P['ninner'] != 0 or not same_vertices(PL.v, L.v) or abs(fls([P['area']], st)[0] - L.ap[0]) > TOL * max(L.ap[0], 1e-6) + area_rounding(L.v, PL.v):
             return ('C20:roundtrip-polygon', 'the polygon read from a serialised loop is not that outline')
         return None
     # polygon with holes -> a single outline with the same net area
